@@ -11,7 +11,9 @@ that are *not* found the normal way.  The names that are found the normal way ar
   * every class-level assignment target,
   * every `self.<name> = …` assignment inside the methods of the two classes,
 
-into `nsAttrs : List (List Char)` of lean/MakoModel/Generated/NsAttrs.lean.  It also records whether
+into `nsAttrs : List (List Char)` of lean/MakoModel/Generated/NsAttrs.lean.  It also emits `nsAttrWalksAtCallTime` (does `_NSAttr`
+keep a reference and walk `.inherits` at call time with hasattr, as the model transcribes? - a named obligation
+of Props/C06.lean) and checks that
 `TemplateNamespace.__getattr__` has the shape the model transcribes (callables, has_def, inherits, raise;
 then setattr) as the Boolean `getattrShapeKnown`; an unknown shape is a RegenError (broken tie).
 """
@@ -80,6 +82,34 @@ def check_getattr_shape(fn, rel):
         raise RegenError("%s: TemplateNamespace.__getattr__ no longer memoises with setattr" % rel)
 
 
+NSATTR_INIT = "self.__parent = parent"
+NSATTR_GETATTR = (
+    "ns = self.__parent\n"
+    "while ns:\n"
+    "    if hasattr(ns.module, key):\n"
+    "        return getattr(ns.module, key)\n"
+    "    else:\n"
+    "        ns = ns.inherits\n"
+    "raise AttributeError(key)"
+)
+
+
+def nsattr_walks_at_call_time(tree, rel):
+    """does `_NSAttr` keep only a reference to its namespace and walk `.inherits` inside `__getattr__`,
+    testing each module with hasattr - the code the model's `nsattrF` transcribes?  (A copy of the chain taken
+    in `__init__`, or a test other than hasattr, answers differently for reads made while the chain is being
+    built resp. for attributes whose value is None.)"""
+    cls = find_class(tree, "_NSAttr", rel)
+    funcs = {n.name: n for n in cls.body if isinstance(n, ast.FunctionDef)}
+    if set(funcs) != {"__init__", "__getattr__"}:
+        return False
+
+    def body_text(fn):
+        body = [n for n in fn.body if not (isinstance(n, ast.Expr) and isinstance(n.value, ast.Constant))]
+        return "\n".join(ast.unparse(n) for n in body)
+    return body_text(funcs["__init__"]) == NSATTR_INIT and body_text(funcs["__getattr__"]) == NSATTR_GETATTR
+
+
 @group("NsAttrs")
 def gen(repo) -> str:
     rel = "mako/runtime.py"
@@ -98,5 +128,8 @@ def gen(repo) -> str:
     out.append("/-- names that ordinary attribute access finds on a `TemplateNamespace` object (methods, properties,\n"
                "class and instance attributes of `Namespace`/`TemplateNamespace`), so that `__getattr__` never runs for them -/\n")
     out.append("def nsAttrs : List (List Char) :=\n  [ " + "\n  , ".join(lstr(n) for n in names) + " ]\n\n")
+    out.append("/-- `_NSAttr` keeps a reference to its namespace (no copy of the chain) and `_NSAttr.__getattr__` walks\n"
+               "`.inherits` at the time of the call, testing `hasattr(ns.module, key)` - the code `nsattrF` transcribes -/\n")
+    out.append("def nsAttrWalksAtCallTime : Bool := %s\n\n" % ("true" if nsattr_walks_at_call_time(tree, rel) else "false"))
     out.append("end MakoModel.Generated.NsAttrs\n")
     return "".join(out)
